@@ -60,8 +60,8 @@ theorem envRadix_facts {E : Env} {r : Nat} (h : EnvRadix E r) :
     · subst hr; decide
     · exact hall r hr
   refine ⟨h2.1, h2.2, ?_, ?_⟩
-  · rcases h with ⟨hE | hE, _⟩ | ⟨hE | hE, _⟩ <;> subst hE <;> rfl
-  · rcases h with ⟨hE | hE, _⟩ | ⟨hE | hE, _⟩ <;> subst hE <;> decide
+  · rcases h with ⟨hE | hE | hE, _⟩ | ⟨hE | hE, _⟩ <;> subst hE <;> rfl
+  · rcases h with ⟨hE | hE | hE, _⟩ | ⟨hE | hE, _⟩ <;> subst hE <;> decide
 
 theorem maxDigits_facts {E : Env} {r : Nat} (h : EnvRadix E r) {F : FTy} (hF : IsFloat F) {d : Nat}
     (hd : E.S.maxDigits F.fmt r = some d) : 0 < d ∧ r ^ (d + 1) ≤ 2 ^ (64 * E.L.bigintLimbs) := by
@@ -129,7 +129,7 @@ theorem positive_guard_decimal {E : Env} (h : EnvRadix E 10) {M c e : Nat} (hM :
   apply positive_guard (by decide) hM
   have h1 : 10 ^ (c + e) ≤ 10 ^ 400 := Nat.pow_le_pow_right (by decide) hce
   have h2 : 10 ^ 400 ≤ 2 ^ (64 * E.L.bigintLimbs) := by
-    rcases h with ⟨hE | hE, _⟩ | ⟨hE | hE, _⟩ <;> subst hE <;> decide +kernel
+    rcases h with ⟨hE | hE | hE, _⟩ | ⟨hE | hE, _⟩ <;> subst hE <;> decide +kernel
   omega
 
 /-! ## (c) `negative_digit_comp` -/
